@@ -951,6 +951,11 @@ impl<'i, R: RuleType> ParserState<'i, R> {
         self = self.inc_call_check_limit()?;
         let token_index = self.queue.len();
         let initial_pos = self.position;
+        // `tag_node` inside `f` may re-tag the token that precedes the sequence.
+        let initial_tag = match self.queue.last() {
+            Some(QueueableToken::End { tag, .. }) => *tag,
+            _ => None,
+        };
 
         let result = f(self.checkpoint());
 
@@ -960,6 +965,9 @@ impl<'i, R: RuleType> ParserState<'i, R> {
                 // Restore the initial position and truncate the token queue.
                 new_state.position = initial_pos;
                 new_state.queue.truncate(token_index);
+                if let Some(QueueableToken::End { tag, .. }) = new_state.queue.last_mut() {
+                    *tag = initial_tag;
+                }
                 Err(new_state.restore())
             }
         }
